@@ -175,28 +175,58 @@ def setKind (st : St) : Option Kind → St
   | some k => { st with kind := some k }
   | none => st
 
-/-- the body of the `switch` for the token `s` of the remaining text `tag`; the flag says that the
+/-- the arms of the `switch` of `tag.Unmarshal` -/
+inductive Arm where
+  | name | number | opt | req | rep | varint | zigzag32 | zigzag64 | fixed32 | fixed64 | bytes | group
+  | enum | json | packed | dflt | proto3 | ignored
+  deriving DecidableEq, Repr
+
+/-- which arm the token `s` selects: the `case` conditions in source order -/
+def arm (s : Str) : Arm :=
+  if NAME_EQ.isPrefixOf s then .name
+  else if s.all Char.isDigit then .number      -- strings.Trim(s, "0123456789") == ""
+  else if s = OPT then .opt
+  else if s = REQ then .req
+  else if s = REP then .rep
+  else if s = VARINT then .varint
+  else if s = ZIGZAG32 then .zigzag32
+  else if s = ZIGZAG64 then .zigzag64
+  else if s = FIXED32 then .fixed32
+  else if s = FIXED64 then .fixed64
+  else if s = BYTES then .bytes
+  else if s = GROUP then .group
+  else if ENUM_EQ.isPrefixOf s then .enum
+  else if JSON_EQ.isPrefixOf s then .json
+  else if s = PACKED then .packed
+  else if DEF_EQ.isPrefixOf s then .dflt
+  else if s = PROTO3 then .proto3
+  else .ignored
+
+/-- the statements of an arm, for the token `s` of the remaining text `tag`; the flag says that the
 `def=` arm ran (`i = len(tag)`: nothing is left) -/
-def body (g : GoKind) (tag s : Str) (st : St) : St × Bool :=
-  if NAME_EQ.isPrefixOf s then ({ st with name := s.drop 5 }, false)
-  else if s.all Char.isDigit then ({ st with number := toInt32 (parseUint32 s) }, false)
-  else if s = OPT then ({ st with label := some .optional }, false)
-  else if s = REQ then ({ st with label := some .required }, false)
-  else if s = REP then ({ st with label := some .repeated }, false)
-  else if s = VARINT then (setKind st (varintKind g), false)
-  else if s = ZIGZAG32 then (if g = .int32 then { st with kind := some .sint32 } else st, false)
-  else if s = ZIGZAG64 then (if g = .int64 then { st with kind := some .sint64 } else st, false)
-  else if s = FIXED32 then (setKind st (fixed32Kind g), false)
-  else if s = FIXED64 then (setKind st (fixed64Kind g), false)
-  else if s = BYTES then ({ st with kind := some (bytesKind g) }, false)
-  else if s = GROUP then ({ st with kind := some .group }, false)
-  else if ENUM_EQ.isPrefixOf s then ({ st with kind := some .enum }, false)
-  else if JSON_EQ.isPrefixOf s then
+def runArm (g : GoKind) (tag s : Str) (st : St) : Arm → St × Bool
+  | .name => ({ st with name := s.drop 5 }, false)
+  | .number => ({ st with number := toInt32 (parseUint32 s) }, false)
+  | .opt => ({ st with label := some .optional }, false)
+  | .req => ({ st with label := some .required }, false)
+  | .rep => ({ st with label := some .repeated }, false)
+  | .varint => (setKind st (varintKind g), false)
+  | .zigzag32 => (if g = .int32 then { st with kind := some .sint32 } else st, false)
+  | .zigzag64 => (if g = .int64 then { st with kind := some .sint64 } else st, false)
+  | .fixed32 => (setKind st (fixed32Kind g), false)
+  | .fixed64 => (setKind st (fixed64Kind g), false)
+  | .bytes => ({ st with kind := some (bytesKind g) }, false)
+  | .group => ({ st with kind := some .group }, false)
+  | .enum => ({ st with kind := some .enum }, false)
+  | .json =>
     (if s.drop 5 ≠ jsonCamelCase (lastName st.name) then { st with json := some (s.drop 5) } else st, false)
-  else if s = PACKED then ({ st with packed := true }, false)
-  else if DEF_EQ.isPrefixOf s then ({ st with dflt := some (tag.drop 4) }, true)
-  else if s = PROTO3 then ({ st with proto3 := true }, false)
-  else (st, false)
+  | .packed => ({ st with packed := true }, false)
+  | .dflt => ({ st with dflt := some (tag.drop 4) }, true)
+  | .proto3 => ({ st with proto3 := true }, false)
+  | .ignored => (st, false)
+
+/-- one iteration of the loop body -/
+def body (g : GoKind) (tag s : Str) (st : St) : St × Bool := runArm g tag s st (arm s)
 
 /-- `for len(tag) > 0 { … tag = strings.TrimPrefix(tag[i:], ",") }` -/
 def parseLoop (g : GoKind) : Nat → Str → St → St
@@ -227,6 +257,26 @@ def St.isPacked (st : St) : Bool :=
 
 /-- `fd.JSONName()`: the explicit name, else `JSONCamelCase(name)` computed lazily -/
 def St.jsonName (st : St) : Str := st.json.getD (jsonCamelCase (lastName st.name))
+
+/-- the attributes a struct tag can carry, as read back through the descriptor API -/
+structure View where
+  name : Str               -- Name()
+  number : Int             -- Number()
+  label : Option Label     -- Cardinality()
+  kind : Option Kind       -- Kind()
+  jsonName : Str           -- JSONName()
+  isPacked : Bool          -- IsPacked()
+  proto3 : Bool            -- Syntax() == Proto3
+  dflt : Option Str        -- HasDefault() / default text
+  deriving Repr, DecidableEq
+
+def St.view (st : St) : View :=
+  { name := st.name, number := st.number, label := st.label, kind := st.kind, jsonName := st.jsonName,
+    isPacked := st.isPacked, proto3 := st.proto3, dflt := st.dflt }
+
+def FieldDesc.view (fd : FieldDesc) : View :=
+  { name := fd.name, number := fd.number, label := some fd.label, kind := some fd.kind, jsonName := fd.json,
+    isPacked := fd.packed, proto3 := fd.proto3, dflt := fd.dflt }
 
 /-- the Go type (as `reflect.Kind`) generated for a field of kind `k` -/
 def goKindOf : Kind → GoKind
